@@ -29,7 +29,7 @@ func main() {
 		Level: "exploration",
 		Rule: "a class is (exchange type {plain, blind CONNECT, MITM CONNECT, decrypted-in-tunnel, cleartext-in-tunnel} x modifier behaviour " +
 			"{pass, mutate, reqerr, reserr, botherr, skip, hijackreq, hijackres} x position in connection {1,2,3+} x upstream outcome " +
-			"{ok, dialfail, drop, none}) and (round-tripper kind {http.Transport, request-cloning wrapper} x type x behaviour x outcome), counted only for exchanges whose request-modifier call the monitor recorded and whose clauses were evaluated; " +
+			"{ok, dialfail, drop, refuse (downstream proxy answers the CONNECT 403), none}) and (round-tripper kind {http.Transport, request-cloning wrapper} x type x behaviour x outcome), counted only for exchanges whose request-modifier call the monitor recorded and whose clauses were evaluated; " +
 			"cases are groups of 1-8 concurrent connections of 1-6 exchanges drawn from VERIF_SEED",
 		Assumptions: []string{
 			"skip-round-trip is only requested on non-CONNECT requests (a CONNECT has no HTTP round trip to skip; martian dials the tunnel target regardless)",
@@ -66,7 +66,7 @@ type exch struct {
 	X  string `json:"x"`            // exchange id, also the first label of its host
 	M  string `json:"m"`            // GET | POST | CONNECT
 	B  string `json:"b"`            // pass mutate reqerr reserr botherr skip hijackreq hijackres
-	O  string `json:"o"`            // upstream outcome: ok dialfail drop none
+	O  string `json:"o"`            // upstream outcome: ok dialfail drop refuse none
 	N  int    `json:"n,omitempty"`  // POST body size
 	S  string `json:"s,omitempty"`  // scheme of the absolute-form target of a plain proxied request ("" = http): ftp gopher vh-custom HTTP
 	NH string `json:"nh,omitempty"` // the request names no host at all: origin form without Host header, "10" = HTTP/1.0 keep-alive, "11" = HTTP/1.1 (skip exchanges on plain connections)
@@ -178,6 +178,10 @@ func matrixCase(stream, tag string, idx int, flip bool) (c02Case, bool) {
 		conn("connect", 0, cn("pass", "ok"))
 		conn("connect", 0, g("pass", "ok"), cn("reserr", "ok"))
 		conn("connect", 0, cn("hijackres", "ok"))
+		// the downstream proxy refuses the tunnel (403 and hangs up): still one exchange
+		conn("connect", 0, cn("pass", "refuse"))
+		conn("connect", 0, g("pass", "ok"), cn("reserr", "refuse"))
+		conn("connect", 0, g("pass", "ok"), cn("botherr", "refuse"))
 		conn("plain", 0, g("pass", "ok"), g("reqerr", "ok"))
 		// unusual but legal request spellings on a proxy connection
 		sch := func(e exch, s string) exch { e.S = s; return e }
@@ -316,7 +320,7 @@ func genCase(rng *rand.Rand, stream string, idx int, race bool) c02Case {
 		}
 		// a hijack or an established blind tunnel ends the script
 		for i, e := range cs.Ex {
-			if strings.HasPrefix(e.B, "hijack") || (cs.Mode == "connect" && e.M == "CONNECT" && e.O == "ok") {
+			if strings.HasPrefix(e.B, "hijack") || (cs.Mode == "connect" && e.M == "CONNECT" && (e.O == "ok" || e.O == "refuse")) {
 				cs.Ex = cs.Ex[:i+1]
 				break
 			}
@@ -521,6 +525,8 @@ func runConn(g *modx.Rig, c c02Case, bar *barrier, ci int, cs connSpec, out *con
 			g.O.SetDialFail(modx.Host(e.X))
 		case "drop":
 			g.O.SetDrop(e.X)
+		case "refuse":
+			g.O.SetRefuse(e.X)
 		}
 		hij := strings.HasPrefix(e.B, "hijack")
 		var probe string
@@ -597,6 +603,13 @@ func runConn(g *modx.Rig, c c02Case, bar *barrier, ci int, cs connSpec, out *con
 				}
 			}
 		}
+		if e.M == "CONNECT" && e.O == "refuse" {
+			// the downstream proxy refused and hung up: whatever the proxy relayed,
+			// there is no tunnel and nothing more to ask on this connection
+			g.O.CloseHost("x:" + e.X)
+			cl.Close()
+			return
+		}
 		if e.M == "CONNECT" && resp.Status == 200 {
 			switch cs.Mode {
 			case "mitm":
@@ -637,6 +650,8 @@ func pathClass(e exch) string {
 	switch {
 	case e.M == "CONNECT" && e.O == "dialfail":
 		return "connect-502"
+	case e.M == "CONNECT" && e.O == "refuse":
+		return "connect-refused"
 	case e.M == "CONNECT":
 		return "connect-200"
 	case e.B == "skip":
@@ -1054,7 +1069,7 @@ func runCase(r *vh.Run, ca *modx.CA, c c02Case) {
 				}
 			}
 			if (reqErr || resErr) && xo.resp != nil {
-				want := map[string]int{"roundtrip": 200, "502": 502, "connect-200": 200, "connect-502": 502}[pc]
+				want := map[string]int{"roundtrip": 200, "502": 502, "connect-200": 200, "connect-502": 502, "connect-refused": 403}[pc]
 				if xo.resp.Status != want || (pc == "roundtrip" && xo.resp.Header.Get("X-Origin-Id") != e.X) {
 					r.Violation("C02:modifier-error-aborts:"+xo.typ, fmt.Sprintf("after a modifier error the client received status %d (origin id %q), the exchange without the error yields %d",
 						xo.resp.Status, xo.resp.Header.Get("X-Origin-Id"), want), wit(nil))
